@@ -322,6 +322,20 @@ def _eigh2(A, e):
   g = +-1 (rotation or reflection); spectrum in closed form m -+ r (r the memoised root).  Equivalent to
   'w ascending, V^T V = I, V diag(w) V^T = A' but with two unknowns instead of six."""
   a, b, c_ = term_of(A[0, 0], True), term_of(A[1, 0], True), term_of(A[1, 1], True)
+  bz = z3.simplify(b)
+  if z3.is_rational_value(bz) and bz.numerator_as_long() == 0:
+    # syntactically diagonal argument: the decomposition is exact and linear.  Distinct entries: the spectrum is the sorted diagonal and
+    # V a signed permutation (both column signs explored as free choices); equal entries fall through to the general parametrisation
+    # (every orthogonal V is a valid answer then).
+    sa, sc = Sym(a), Sym(c_)
+    if sa < sc or sc < sa:
+      lo_first = bool(sa < sc)
+      g0 = 1 - 2 * e.choose(2, 'eigsign')
+      g1 = 1 - 2 * e.choose(2, 'eigsign')
+      z, o0, o1 = _np.float64(0.0), _np.float64(g0), _np.float64(g1)
+      if lo_first:
+        return core.obj_array([sa, sc]), core.obj_array([o0, z, z, o1], (2, 2))
+      return core.obj_array([sc, sa]), core.obj_array([z, o0, o1, z], (2, 2))
   rs = sym_sqrt(Sym(((a - c_) / 2) * ((a - c_) / 2) + b * b))
   r = term_of(rs, True)
   w0, w1 = e.fresh('eigw'), e.fresh('eigw')
